@@ -103,6 +103,7 @@ public:
   u32_t verif_total() const { return total; };
   u32_t verif_now() const { return now; };
   bool verif_isfinal() const { return isfinal; };
+  const u8_t *verif_data() const { return &b[0][0]; };
 #endif
 };
 /*
